@@ -14,6 +14,9 @@ inductive IExpr where
   | var (name : String)
   | lit (n : Nat)
   | add (a b : IExpr) | mul (a b : IExpr) | mod (a b : IExpr) | div (a b : IExpr)
+  | max (a b : IExpr) | min (a b : IExpr)
+  | monus (a b : IExpr)       -- `max(a - b, 0)`
+  | sub (a b : IExpr)         -- Python int subtraction; `none` when it would go below zero (never an index / size then)
   | other (src : String)
   deriving Repr, DecidableEq
 
@@ -25,6 +28,10 @@ def IExpr.eval (env : String → Nat) : IExpr → Option Nat
   | .mul a b => match a.eval env, b.eval env with | some x, some y => some (x * y) | _, _ => none
   | .mod a b => match a.eval env, b.eval env with | some x, some y => if y = 0 then none else some (x % y) | _, _ => none
   | .div a b => match a.eval env, b.eval env with | some x, some y => if y = 0 then none else some (x / y) | _, _ => none
+  | .max a b => match a.eval env, b.eval env with | some x, some y => some (Nat.max x y) | _, _ => none
+  | .min a b => match a.eval env, b.eval env with | some x, some y => some (Nat.min x y) | _, _ => none
+  | .monus a b => match a.eval env, b.eval env with | some x, some y => some (x - y) | _, _ => none
+  | .sub a b => match a.eval env, b.eval env with | some x, some y => if x < y then none else some (x - y) | _, _ => none
   | .other _ => none
 
 inductive Cmp where
@@ -51,5 +58,16 @@ def env4 (p r M i : Nat) : String → Nat := fun n =>
   if n = "p" then p else if n = "r" then r else if n = "M" then M else if n = "i" then i else 0
 
 def envMx (mx : Nat) : String → Nat := fun n => if n = "mx" then mx else 0
+
+/-- one named quantity -/
+def env1 (name : String) (v : Nat) : String → Nat := fun n => if n = name then v else 0
+
+/-- `if c₁: b₁ elif c₂: b₂ … else: e` over one quantity: the value of the first branch whose condition holds -/
+def chainVal (env : String → Nat) : List (Cmp × Nat) → Nat → Option Nat
+  | [], e => some e
+  | (c, b) :: rest, e => match c.eval env with
+    | some true => some b
+    | some false => chainVal env rest e
+    | none => none
 
 end Panoptica.Codes
